@@ -55,6 +55,18 @@ def parseEv2 (s : String) : Option (Sum (Ev String) String) :=
   | 'r' :: r => (peerOf (String.ofList r)).map Sum.inr
   | _ => (parseEv s).map Sum.inl
 
+/-- the first attempt's failure in `retry2`: `silent` (coordinator time-out naming the static coordinator `c`), or the
+    error the first Run returned: t[<culprit>+…], c<peer>, m — as it reaches handleError through two pools -/
+def firstErr (first : String) (c : String) : Option (Sygma.C11.Err String) :=
+  if first = "silent" then some (.wrap (.coord (some c))) else
+  match first.toList with
+  | ['m'] => some (.wrap (.wrap .comm))
+  | 'c' :: r => (peerOf (String.ofList r)).map fun p => .wrap (.wrap (.coord (some p)))
+  | 't' :: r =>
+    if r.isEmpty then some (.wrap (.wrap (.tss [] true)))
+    else ((String.ofList r).splitOn "+").mapM peerOf |>.map fun ps => .wrap (.wrap (.tss ps true))
+  | _ => none
+
 def showRes : Res → String
   | .ok => "ok" | .fail => "fail" | .badStart => "other"
 
@@ -105,6 +117,20 @@ def handle (op : String) (args : List String) (impl : String) : Option Verdict :
       | some c => decide (c ∈ ps) && ps.all (fun p => key p ≤ key c)
       | none => false
     return ⟨m, ok, s!"coord:n={sizeTag ps.length}"⟩
+  | "newsigning", [_kind, _self, _t, sid, holders, peerstore] => some <| Id.run do
+    let some sid := fromHex sid | return bad
+    let some holders := peers holders | return bad
+    let some pstore := peers peerstore | return bad
+    let key := keyOf sid (keyTab sid holders)
+    let valid := validCoordinators holders pstore
+    let c := match staticCoordinator key valid with | some c => tokOf c | none => "none"
+    -- property on the implementation's output: the holders (in any order) are the valid coordinators and the elected one
+    -- is the holder with the maximal key — nothing depends on the local peerstore
+    let ok := match (field impl "valid").bind peers, field impl "coord" with
+      | some v, some ic => decide (v.Perm holders) && ic == c
+      | _, _ => false
+    let missing := holders.any (fun h => !pstore.contains h)
+    return ⟨s!"valid={toks valid};coord={c}", ok, s!"newsigning:n={sizeTag holders.length}:view-incomplete={missing}"⟩
   | "subset", [_kind, t, sid, holders, ready] => some <| Id.run do
     let some t := t.toNat? | return bad
     let some sid := fromHex sid | return bad
@@ -139,13 +165,12 @@ def handle (op : String) (args : List String) (impl : String) : Option Verdict :
     -- property on the implementation's output: whatever subset was announced / started satisfies the C07 clause
     let ok := match field impl "start", field impl "run" with
       | some st, some rn =>
-        if st = "none" then rn == "none" else
-          match peers st with
-          | some S => (!wf || decide (SubsetOk cfg arrivals S)) && rn == st
+        rn == st && match (if st = "none" then some none else (peers st).map some) with
+          | some out => !wf || decide (AnnouncedOk cfg arrivals out)
           | none => false
       | _, _ => false
     return ⟨m, ok, s!"initiate:{tag}:wf={wf}:excl={!excluded.isEmpty}:ticks={ticks}:arr={sizeTag arrs.length}"⟩
-  | "retry2", [self, t, sid, ps, claimant, evs] => some <| Id.run do
+  | "retry2", [self, t, sid, ps, first, claimant, evs] => some <| Id.run do
     let some self := peerOf self | return bad
     let some t := t.toNat? | return bad
     let some sid := fromHex sid | return bad
@@ -156,8 +181,11 @@ def handle (op : String) (args : List String) (impl : String) : Option Verdict :
     match staticCoordinator key ps with
     | none => return ⟨"selfcoord", impl == "selfcoord", "retry2:selfcoord"⟩
     | some c =>
-      if c = self then return ⟨"selfcoord", impl == "selfcoord", "retry2:selfcoord"⟩
-      let cands := Sygma.C11.nextCandidates ps [c]
+      if first = "silent" && c = self then return ⟨"selfcoord", impl == "selfcoord", "retry2:selfcoord"⟩
+      -- the failure of the first attempt as handleError receives it, and whom it excludes (model of C11)
+      let some e := firstErr first c | return bad
+      let .retry ex := Sygma.C11.afterFailure true e | return bad
+      let cands := Sygma.C11.nextCandidates ps ex
       let sel := toks (sortDesc key cands)
       let elected := Sygma.C11.bullyElectedListed key self cands claimant
       let fails := evs.any fun e => match e with | .inl (.fail _) => true | _ => false
@@ -165,17 +193,18 @@ def handle (op : String) (args : List String) (impl : String) : Option Verdict :
         -- coordinates the second attempt: ready messages are collected, fail messages are read by a watcher that knows
         -- no coordinator and are all ignored
         let readies := evs.filterMap fun e => match e with | .inr p => some p | _ => none
-        let cfg : ICfg String := ⟨self, ps, t, [c]⟩
+        let cfg : ICfg String := ⟨self, ps, t, ex⟩
+        let wf := decide (self ∈ ps) && decide (self ∉ ex)
         let (m, tag) := match initiate key cfg readies with
           | some (_, S) => (s!"mode=c;sel={sel};r=-;start={toks S};run=c:{toks S};res=ok", "announced")
           | none => (s!"mode=c;sel={sel};r=-;start=none;run=-;res=ok", "never-ready")
         let ok := match field impl "start", field impl "res" with
           | some st, some res =>
-            res == "ok" && (st == "none" || match peers st with
-              | some S => !decide (self ∈ ps) || decide (SubsetOk cfg readies S)
-              | none => false)
+            res == "ok" && match (if st = "none" then some none else (peers st).map some) with
+              | some out => !wf || decide (AnnouncedOk cfg readies out)
+              | none => false
           | _, _ => false
-        return ⟨m, ok, s!"retry2:coordinates:{tag}:fails={fails}"⟩
+        return ⟨m, ok, s!"retry2:{if first = "silent" then "silent" else "failed-run"}:coordinates:{tag}:wf={wf}:fails={fails}"⟩
       else
         let tr := evs.filterMap fun e => match e with | .inl e => some e | _ => none
         let st := runWait2 (some elected) none tr
